@@ -14,6 +14,10 @@ Spec == Init /\ [][Next]_<<c, lay>>
 
 WellFormed == CfgOK(c)
 Accepted   == AcceptedCanRun(c) /\ CliAcceptedCanRun(c)
+\* the start-up check before the repair of F28: an unprivileged UDP paris / dublin configuration reaches the core
+LegacyStart(x)   == /\ x.psize <= MaxPacket
+                    /\ (x.proto \in {"icmp", "udp"} /\ x.first <= x.max /\ x.inflight > 0) => x.psize >= MinPacket(x.fam, x.proto)
+AcceptedLegacy   == BuilderAccepts(c) /\ LegacyStart(c) => Supported(c)
 \* non-vacuity: some configuration runs, some is rejected at each stage, and the CLI accepts some
 LayerLaw == LET e == Layer(lay.cli, lay.file, "d") IN
             /\ (lay.cli # Absent => e = lay.cli)
